@@ -14,7 +14,8 @@ ghost var runResult mmap[int]string
 
 iface (f Filter) Handle(ctx *context.Context) (result string)
   trusted
-  modifies runLen, runFilter, runNS, runResult
+  modifies runLen, runFilter, runNS, runResult, outResp, outRespTyp
+  ensures a-filter-leaves-no-half-built-http-response: context.respOK()
   ensures runLen == old(runLen) + 1
   ensures runFilter == old(store(runFilter, runLen, ref(f)))
   ensures runNS == old(store(runNS, runLen, ctx.activeNs))
